@@ -13,11 +13,16 @@ FAIL=0
 for P in "${PROPS[@]}"; do
 	R=$N; [ "$P" = C17 ] && R=$((N/10)); [ "$P" = C18 ] && R=$((N/2))
 	for BIN in "$A" $([ "$P" = C18 ] && echo "$T"); do
-		"$BIN" check --property "$P" --runs "$R" --workers 16 --hashes --seed "${VERIF_SEED:-1}" 2>/dev/null | grep '^HASH' > .build/run/det-a.txt
-		"$BIN" check --property "$P" --runs "$R" --workers 5 --hashes --seed "${VERIF_SEED:-1}" 2>/dev/null | grep '^HASH' > .build/run/det-b.txt
-		na=$(wc -l < .build/run/det-a.txt); d=$(diff .build/run/det-a.txt .build/run/det-b.txt | grep -c '^<')
-		echo "$P $(basename $(dirname $BIN)): $na runs hashed twice (16 vs 5 workers), $d differ"
-		[ "$d" -ne 0 ] || [ "$na" -ne "$R" ] && FAIL=1
+		# both tiers: the thorough generators draw from larger spaces (this is where a history-dependent
+		# RSA key generation once hid)
+		for TIER in quick thorough; do
+			RT=$R; [ $TIER = thorough ] && RT=$((R/3))
+			"$BIN" check --property "$P" --tier $TIER --runs "$RT" --workers 16 --hashes --seed "${VERIF_SEED:-1}" 2>/dev/null | grep '^HASH' > .build/run/det-a.txt
+			"$BIN" check --property "$P" --tier $TIER --runs "$RT" --workers 5 --hashes --seed "${VERIF_SEED:-1}" 2>/dev/null | grep '^HASH' > .build/run/det-b.txt
+			na=$(wc -l < .build/run/det-a.txt); d=$(diff .build/run/det-a.txt .build/run/det-b.txt | grep -c '^<')
+			echo "$P $(basename $(dirname $BIN)) $TIER: $na runs hashed twice (16 vs 5 workers), $d differ"
+			[ "$d" -ne 0 ] || [ "$na" -ne "$RT" ] && FAIL=1
+		done
 	done
 done
 rm -f .build/run/det-a.txt .build/run/det-b.txt
